@@ -532,6 +532,15 @@ def find_split_parts(term):
 
 def fmt_site_for_call(fx, body, bb):
     """the AST format-args site expanded at the same call site as the MIR call in block bb"""
+    if isinstance(bb, int) and bb < 0:
+        # a call site spliced in from an inlined helper / closure: look the block up in the body it came from
+        org = mir.INLINED_SITES.get((body.key, bb))
+        if org is None or fx.fn(org[0]) is None or not isinstance(org[1], int) or org[1] < 0:
+            return None
+        body = mir.Body(fx.fn(org[0]))
+        bb = org[1]
+    if not (0 <= bb < len(body.blocks)):
+        return None
     sp = body.blocks[bb]["tspan"]
     for st in fx.fmt_sites:
         e = st["espan"]
